@@ -213,8 +213,29 @@ impl<'a> M<'a> {
                 }
                 return true;
             }
-            if self.cdata.contains(&pn) && self.lit("<![CDATA[") {
-                if !(self.lit(want) && self.lit("]]>")) {
+            if self.cdata.contains(&pn) && self.at("<![CDATA[") {
+                // the text arrives as one or more CDATA sections, possibly with character references between
+                // them for what a section cannot hold (a CR, which a parser would read as a line end)
+                let mut got = String::new();
+                loop {
+                    if self.lit("<![CDATA[") {
+                        while !self.at("]]>") {
+                            match self.peek() {
+                                Some(c) => {
+                                    got.push(c);
+                                    self.pos += 1;
+                                }
+                                None => return self.bad("cdata-section-holds-the-text"),
+                            }
+                        }
+                        self.lit("]]>");
+                    } else if self.lit("&#13;") {
+                        got.push('\r');
+                    } else {
+                        break;
+                    }
+                }
+                if got != want {
                     return self.bad("cdata-section-holds-the-text");
                 }
                 return true;
